@@ -100,13 +100,59 @@ func genDecLargeHistory(t *rapid.T, x *decExec, faults bool) {
 		bound := minInt(cc.WindowSize, have)
 		var op int
 		if x.buf != nil {
-			// write, wmatch, wblock, read, writeto, reset
-			op = weighted(t, "op", 3, 4, 4, 3, 3, 1)
+			// write, wmatch, wblock, read, writeto, reset, steady
+			op = []int{0, 1, 2, 3, 4, 5, 8}[weighted(t, "op", 3, 4, 4, 3, 3, 1, 2)]
 		} else {
-			// write, (no wmatch), wblock, flush, reinit/reset, wbyte
-			op = []int{0, 2, 6, 5, 7}[weighted(t, "op", 3, 6, 2, 1, 1)]
+			// write, (no wmatch), wblock, flush, reinit/reset, wbyte, steady
+			op = []int{0, 2, 6, 5, 7, 8}[weighted(t, "op", 3, 6, 2, 1, 1, 2)]
 		}
 		switch op {
+		case 8:
+			// steady state: hundreds to thousands of small blocks, most of
+			// their matches at or just below the window distance (a
+			// periodic stream through a parser with small blocks looks
+			// like this); the buffer fills and makes room many times, at
+			// every alignment. All of it is a function of four draws.
+			nb := rapid.IntRange(200, 4000).Draw(t, "steadyBlocks")
+			seed := uint32(rapid.IntRange(0, 1<<30).Draw(t, "steadySeed"))
+			maxM := rapid.SampledFrom([]int{101, 3, 8, 300, 4000}).Draw(t, "steadyMaxM")
+			near := rapid.SampledFrom([]int{0, 0, 7, 64}).Draw(t, "steadyNear")
+			next := func(n int) int {
+				seed = seed*1664525 + 1013904223
+				return int(seed>>8) % maxInt(n, 1)
+			}
+			for b := 0; b < nb && !x.dead; b++ {
+				var seqs []lz.Seq
+				var lits []byte
+				cur := len(x.all)
+				for k := 1 + next(2); k > 0; k-- {
+					ll := []int{0, 0, 0, 1, 2, 9}[next(6)]
+					bd := minInt(x.cc.WindowSize, cur+ll)
+					if bd < 1 {
+						ll++
+						bd = 1
+					}
+					o := bd - next(near+1)
+					if next(8) == 0 {
+						o = 1 + next(bd)
+					}
+					if o < 1 {
+						o = 1
+					}
+					m := 1 + next(maxM)
+					seqs = append(seqs, lz.Seq{LitLen: uint32(ll), MatchLen: uint32(m), Offset: uint32(o)})
+					for i := 0; i < ll; i++ {
+						lits = append(lits, byte('a'+next(26)))
+					}
+					cur += ll + m
+					total += ll + m
+				}
+				x.step(DOp{Op: "wblock", Seqs: seqs, Lits: lits})
+				if x.buf != nil && len(x.all)-x.cursor > free/2 {
+					// the reader keeps up
+					x.step(DOp{Op: "read", Len: len(x.all) - x.cursor - next(3)})
+				}
+			}
 		case 0:
 			n := genLargeLen(t, "wlen", free)
 			total += n
